@@ -88,6 +88,19 @@ def returns(b):
     return out
 
 
+def iterator_overrides(ctx, rule):
+    """The crate's iterators define `next` only: every other Iterator method (nth, step_by, skip, count, last, ...)
+    is the provided one built on `next`, so what `next` is shown to do is what all of them do."""
+    n_it = 0
+    for b in ctx.facts.bodies:
+        if b.promoted is None and b.kind == "AssocFn" and not b.derived and (b.raw.get("impl_trait") or "") in (
+                "core::iter::traits::iterator::Iterator", "core::iter::traits::double_ended::DoubleEndedIterator", "core::iter::traits::exact_size::ExactSizeIterator"):
+            n_it += 1
+            ctx.check(b.raw.get("name") == "next" and b.raw["impl_trait"].endswith("::Iterator"), rule, b.path, "iterator:only-next",
+                      "the iterator types of the crate implement `next` only (all adapters and positional methods derive from it)")
+    ctx.floor(rule, "iterators", "Iterator impls of the crate", n_it, 7)
+
+
 def accessors(ctx, rule, only=None, min_n=None):
     n = 0
     for path, alts in sorted(TABLE.items()):
@@ -121,4 +134,14 @@ def accessors(ctx, rule, only=None, min_n=None):
     if sc is not None:
         adv = [q.shape(sc.expr_of_rvalue(s["rv"])) for bi, si, s, it2 in sc.locations() if not it2 and s["k"] == "assign" and s["place"]["p"] and s["place"]["p"][-1].get("n") == "next_idx"]
         ctx.check(adv == ["Add(1,arg1.next_idx)"], rule, sc.path, "advance", "SourceContentsIter advances by one", detail=str(adv))
+    # the crate's iterators define `next` only: every other Iterator method (nth, step_by, skip, count, last, ...) is the
+    # provided one built on `next`, so what `next` is shown to do above is what all of them do. An override needs review.
+    n_it = 0
+    for b in ctx.facts.bodies:
+        if b.promoted is None and b.kind == "AssocFn" and not b.derived and (b.raw.get("impl_trait") or "") in (
+                "core::iter::traits::iterator::Iterator", "core::iter::traits::double_ended::DoubleEndedIterator", "core::iter::traits::exact_size::ExactSizeIterator"):
+            n_it += 1
+            ctx.check(b.raw.get("name") == "next" and b.raw["impl_trait"].endswith("::Iterator"), rule, b.path, "iterator:only-next",
+                      "the iterator types of the crate implement `next` only (all adapters and positional methods derive from it)")
+    ctx.floor(rule, "iterators", "Iterator impls of the crate", n_it, 7)
     ctx.floor(rule, "accessors", "accessors checked", n, min_n if min_n is not None else (10 if only else 50))
